@@ -312,6 +312,12 @@ func init() {
 			big := g.Bool()
 			kind := cfg.Intn(5)
 			alt := gen.DrawAlt(c.L("gen:x"))
+			if y := c.L("gen:y"); y.Chance(1, 10) {
+				// a text value longer than the 4 KiB readers can look ahead to: whatever is reported
+				// for it, it is the same in every container
+				alt.LongText = []int{5000, 9000, 16384, 17000}[y.Intn(4)] + y.Intn(8)
+				c.Inc("probe:text-value-beyond-the-look-ahead")
+			}
 			if alt != (gen.Alt{}) {
 				c.Inc("probe:alternative-encodings (LONG for SHORT, ISO x2, slot padding)")
 			}
